@@ -53,19 +53,22 @@ func verifStoppableLB(n int, withPool bool, realPool bool) (*LoadBalancer, []*ve
 	return lb, conns
 }
 
-// VerifC19Stop: Stop() racing one health-check tick (the body of the ticker
-// loop), and Stop() racing Stop(). Stop must terminate (built-in deadlock
+// VerifC19Stop: Stop() racing the real health-check goroutine (started by the
+// real startHealthChecks: an initial round of probes, then one more round per
+// tick; the executor grants `ticks` firings), and Stop() racing Stop(). Stop must terminate (built-in deadlock
 // detection), close every pooled connection, be harmless when repeated, and
 // the probe accounting must not be misused (WaitGroup Add concurrent with Wait).
-func VerifC19Stop(mode int, n int) {
+func VerifC19Stop(mode int, n int, ticks int) {
 	atomic.StoreInt32(&verifProbesSent, 0)
 	atomic.StoreInt32(&verifStopReturned, 0)
 	atomic.StoreInt32(&verifProbeAfterStop, 0)
 	lb, conns := verifStoppableLB(n, true, mode != 0)
 	stopped := int32(0)
 	switch mode {
-	case 0: // a tick racing Stop
-		verifrt.Go(func() { lb.checkBackendsHealth() })
+	case 0: // the health-check goroutine (initial round + ticks) racing Stop
+		lb.healthChecks.activeInterval = time.Millisecond
+		verifrt.Ticks(ticks)
+		lb.startHealthChecks()
 		verifrt.Go(func() { lb.Stop(); atomic.StoreInt32(&verifStopReturned, 1); atomic.StoreInt32(&stopped, 1) })
 	case 1: // two concurrent Stops
 		verifrt.Go(func() { lb.Stop() })
